@@ -421,6 +421,155 @@ func multiPart(out *bufio.Writer, r *rand.Rand, thorough bool) (n int) {
 	return
 }
 
+// multiBroker: requests that the Transport splits over several brokers / coordinators of a three-broker cluster
+// (connfake.TCluster) and merges again: ListGroups (one part per broker), DescribeGroups (one part per group, each after
+// a FindCoordinator lookup), DescribeConfigs (one part per broker resource + one for the others), ListOffsets over three
+// partitions with three leaders.  The response to the nth part to arrive (or the nth coordinator lookup) is cut at k.
+//
+//	sm <api> <cut key> <parts> <frame len> <k>\t<call> <entries>     strict merges: error, or ALL entries
+//	lo3 <cut broker|none> <frame len> <k>\t<call> <p0 last:err> <p1 last:err> <p2 last:err>
+func multiBroker(out *bufio.Writer, r *rand.Rand, thorough bool) (n int) {
+	type api struct {
+		name   string
+		cutKey int16
+		parts  int
+		call   func(cl *kafka.Client) (int, error)
+	}
+	apis := []api{
+		{"listGroups", 16, 3, func(cl *kafka.Client) (int, error) {
+			ctx, cancel := ctx3()
+			defer cancel()
+			resp, err := cl.ListGroups(ctx, &kafka.ListGroupsRequest{})
+			if err != nil {
+				return 0, err
+			}
+			if resp.Error != nil {
+				return 0, resp.Error
+			}
+			ok := 0
+			for _, g := range resp.Groups {
+				if g.GroupID == fmt.Sprintf("grp-%d-a", g.Coordinator) || g.GroupID == fmt.Sprintf("grp-%d-b", g.Coordinator) {
+					ok++
+				}
+			}
+			return ok, nil
+		}},
+		{"describeGroups", 15, 4, func(cl *kafka.Client) (int, error) {
+			ctx, cancel := ctx3()
+			defer cancel()
+			resp, err := cl.DescribeGroups(ctx, &kafka.DescribeGroupsRequest{GroupIDs: []string{"ga", "gb", "gc", "gd"}})
+			if err != nil {
+				return 0, err
+			}
+			ok := 0
+			for _, g := range resp.Groups {
+				if g.Error == nil && g.GroupState == "Stable" {
+					ok++
+				}
+			}
+			return ok, nil
+		}},
+		{"describeGroups/coordinator", 10, 4, nil},
+		{"describeConfigs", 32, 4, func(cl *kafka.Client) (int, error) {
+			ctx, cancel := ctx3()
+			defer cancel()
+			resp, err := cl.DescribeConfigs(ctx, &kafka.DescribeConfigsRequest{Resources: []kafka.DescribeConfigRequestResource{
+				{ResourceType: kafka.ResourceTypeBroker, ResourceName: "1"}, {ResourceType: kafka.ResourceTypeBroker, ResourceName: "2"},
+				{ResourceType: kafka.ResourceTypeBroker, ResourceName: "3"}, {ResourceType: kafka.ResourceTypeTopic, ResourceName: ttopic}}})
+			if err != nil {
+				return 0, err
+			}
+			ok := 0
+			for _, rs := range resp.Resources {
+				if rs.Error == nil && len(rs.ConfigEntries) == 1 {
+					ok++
+				}
+			}
+			return ok, nil
+		}},
+	}
+	apis[2].call = apis[1].call
+	newCl := func() (*connfake.TCluster, *kafka.Transport, *kafka.Client) {
+		c := connfake.NewTCluster(ttopic, 3, 3)
+		tr := &kafka.Transport{Dial: c.Dial, DialTimeout: 2 * time.Second, MetadataTTL: time.Hour, ClientID: "verif"}
+		return c, tr, &kafka.Client{Addr: taddr, Transport: tr, Timeout: 3 * time.Second}
+	}
+	bad := 0
+	for _, a := range apis {
+		c0, tr0, cl0 := newCl()
+		if _, err := a.call(cl0); err != nil {
+			fmt.Fprintf(out, "sm %s %d %d 0 0\tsetup-failed 0\n", a.name, a.cutKey, a.parts)
+			continue
+		}
+		flen := c0.LastFrameLen(a.cutKey)
+		go tr0.CloseIdleConnections()
+		for nth := 1; nth <= a.parts && bad < 5; nth++ {
+			for _, k := range cuts(r, flen, thorough, 3) {
+				c, tr, cl := newCl()
+				if k < flen {
+					c.Cut(a.cutKey, nth, k)
+				}
+				impl := "hang 0"
+				if guard(5*time.Second, func() error {
+					cnt, err := a.call(cl)
+					impl = fmt.Sprintf("%s %d", outcome(err), cnt)
+					return nil
+				}) == "hang" {
+					bad++
+				}
+				go tr.CloseIdleConnections()
+				fmt.Fprintf(out, "sm %s %d %d %d %d\t%s\n", a.name, a.cutKey, a.parts, flen, k, impl)
+				n++
+			}
+		}
+	}
+	// ListOffsets over three partitions with three leaders: per-partition isolation (expected value from the C19 model)
+	flen := 41
+	for nth := 1; nth <= 3 && bad < 5; nth++ {
+		for _, k := range cuts(r, flen, thorough, 3) {
+			c, tr, cl := newCl()
+			if k < flen {
+				c.Cut(2, nth, k)
+			}
+			impl := "hang - - -"
+			if guard(5*time.Second, func() error {
+				ctx, cancel := ctx3()
+				defer cancel()
+				resp, err := cl.ListOffsets(ctx, &kafka.ListOffsetsRequest{Topics: map[string][]kafka.OffsetRequest{
+					ttopic: {kafka.LastOffsetOf(0), kafka.LastOffsetOf(1), kafka.LastOffsetOf(2)}}})
+				if err != nil {
+					impl = "err - - -"
+					return nil
+				}
+				ps := map[int]string{0: "missing", 1: "missing", 2: "missing"}
+				for _, p := range resp.Topics[ttopic] {
+					code := "0"
+					if p.Error != nil {
+						code = "other"
+						var ke kafka.Error
+						if errors.As(p.Error, &ke) {
+							code = fmt.Sprint(int(ke))
+						}
+					}
+					ps[p.Partition] = fmt.Sprintf("%d:%s", p.LastOffset, code)
+				}
+				impl = fmt.Sprintf("ok %s %s %s", ps[0], ps[1], ps[2])
+				return nil
+			}) == "hang" {
+				bad++
+			}
+			cutOn := "none"
+			if b := c.CutBroker(); b != 0 {
+				cutOn = fmt.Sprint(b - 1) // partition p is led by broker p+1
+			}
+			go tr.CloseIdleConnections()
+			fmt.Fprintf(out, "lo3 %s %d %d\t%s\n", cutOn, flen, k, impl)
+			n++
+		}
+	}
+	return
+}
+
 func transportPath(out *bufio.Writer, r *rand.Rand, thorough bool) (n int, slowest time.Duration) {
 	bad := 0
 	for _, s := range tscenarios() {
